@@ -460,6 +460,7 @@ func c14Oracle(c *C14Case) string {
 	if c.Faulty == "" {
 		return ""
 	}
+	st.Eval() // the faulty variant is a second evaluation of this case
 	f := RunIniRead(c.D, c.Faulty, false)
 	if f.Panic != "" {
 		return fmt.Sprintf("INI reader panicked on fault %q:\n%s\n%s", c.FaultKind, trunc(c.Faulty), f.Panic)
